@@ -105,7 +105,8 @@ def predicates(c, ri, rm):
             break
     if rm[0] == "OK" and c.tag in ("impossible_cell", "property_example"):
         for k in range(n1 * n2):
-            if rm[1][k * (ny + 1) + ny] == 1 and abs(Fraction(vals[k * (ny + 1) + ny]) - 1) > tol:
+            # the guard makes the cell exactly vacuous or leaves it to rounding noise: no conditioning allowance
+            if rm[1][k * (ny + 1) + ny] == 1 and abs(Fraction(vals[k * (ny + 1) + ny]) - 1) > TOL[c.ty] * 4:
                 out.append("an impossible joint value (cell %d) received the confident opinion %r instead of the "
                            "vacuous one" % (k, vals[k * (ny + 1):(k + 1) * (ny + 1)]))
                 break
